@@ -141,6 +141,25 @@ func roTree(t map[string]any, B int64, seed int64) []fsx.Entry {
 		for i := 0; i < 1100; i++ {
 			es = append(es, fsx.Entry{Path: fmt.Sprintf("many/T%05d.BIN", i), Data: fsx.Content(i+1, sz)})
 		}
+	case "dotdirs":
+		for _, dn := range []string{"v1.0", "v1.1", "v1.2", "conf.d", "conf.bak", "pkg", "pkg.old", "a.b.c", "a.b.d"} {
+			if names == "plain83" {
+				dn = strings.ToUpper(dn)
+			}
+			es = append(es, fsx.Entry{Path: dn, Dir: true})
+			addFiles(dn, 2)
+			es = append(es, fsx.Entry{Path: dn + "/" + map[bool]string{true: "INNER", false: "inner.d"}[names == "plain83"], Dir: true})
+		}
+		for _, fn := range []string{"data.1", "data.2", "data.10", "readme", "readme.txt"} {
+			if names == "plain83" {
+				fn = strings.ToUpper(fn)
+			}
+			addFile("", fn)
+		}
+	case "blocklists":
+		for i := 0; i < 40; i++ {
+			es = append(es, fsx.Entry{Path: fmt.Sprintf("F%02d.BIN", i), Data: fsx.Content(i+1, 100*4096+(i%3)*77)})
+		}
 	default: // mixed
 		addFiles("", 4)
 		es = append(es, fsx.Entry{Path: dirName(1), Dir: true}, fsx.Entry{Path: dirName(2), Dir: true}, fsx.Entry{Path: dirName(1) + "/" + dirName(3), Dir: true}, fsx.Entry{Path: dirName(4), Dir: true})
@@ -203,6 +222,9 @@ func isoMangles(src, img string, isDir bool) bool {
 	}
 	if len(ext) > 3 {
 		ext = ext[:3]
+	}
+	if isDir {
+		ext = "" // a directory identifier has no extension: what follows the first dot is dropped
 	}
 	if len(base) > 8 {
 		base = base[:8]
